@@ -170,7 +170,12 @@ def run_tlc(module, cfg, files=None, workers=None, timeout=1800, simulate=None, 
 
 # ------------------------------------------------------------------ real pipeline
 
-def run_real(sessions, nworkers=None, timeout=900):
+def run_real_full(sessions, nworkers=None, timeout=900):
+    """like run_real, but returns the whole output record ({id, res, bc?}) per session"""
+    return run_real(sessions, nworkers, timeout, full=True)
+
+
+def run_real(sessions, nworkers=None, timeout=900, full=False):
     """sessions: list of dicts for `vh run`.  Returns {id: [obs...]}.  A worker that dies is
     restarted after the session it was working on, which is recorded as kind 'crash'."""
     vh = build_harness()
@@ -203,7 +208,7 @@ def run_real(sessions, nworkers=None, timeout=900):
                 o = json.loads(line)
             except Exception:
                 continue
-            got[o["id"]] = o["res"]
+            got[o["id"]] = o if full else o["res"]
         results.update(got)
         if p.returncode != 0:
             # the worker died (fatal runtime error, os.Exit from the program, safety-net timeout):
@@ -211,9 +216,10 @@ def run_real(sessions, nworkers=None, timeout=900):
             rest = [s for s in ch if s["id"] not in got]
             if rest:
                 dead = rest[0]
-                results[dead["id"]] = [{"kind": "crash", "exit": p.returncode, "stderr": (err or b"").decode(errors="replace")[-400:]}]
+                crash = [{"kind": "crash", "exit": p.returncode, "stderr": (err or b"").decode(errors="replace")[-400:]}]
+                results[dead["id"]] = {"id": dead["id"], "res": crash} if full else crash
                 if len(rest) > 1:
-                    results.update(run_real(rest[1:], nworkers=1, timeout=max(30, deadline - time.time())))
+                    results.update(run_real(rest[1:], nworkers=1, timeout=max(30, deadline - time.time()), full=full))
     shutil.rmtree(d, ignore_errors=True)
     return results
 
